@@ -723,6 +723,14 @@ def _hist_set(t, name, value, kind, route):
 
 
 def _hist_call(t, fname, buf, censor):
+    if fname == "params_sample":
+        # called for its effect on the object only (it must have none)
+        try:
+            np.random.seed(20240517)
+            t.params_sample(7)
+        except Exception as e:
+            return ("raise", type(e).__name__)
+        return ("ok", b"")
     f = getattr(t, fname)
     try:
         with np.errstate(all="ignore"):
@@ -753,10 +761,10 @@ def history_sequence(T, cls, opts, kinds, X, Y, name, f1, f2, route, other, cens
     return got, want
 
 
-def history_cases(cls, tier, seed, funcs):
+def history_cases(cls, tier, seed, funcs, f1s=None):
     opts, kinds, pairs = history_pairs(cls, tier, seed)
     for X, Y, name in pairs:
-        for f1 in funcs:
+        for f1 in (funcs if f1s is None else f1s):
             for f2 in funcs:
                 for route in HIST_ROUTES:
                     for other in (False, True):
@@ -767,10 +775,10 @@ def history_cases(cls, tier, seed, funcs):
                             yield opts, kinds, X, Y, name, f1, f2, route, other, censor
 
 
-def run_history(ctx, T, cls, tier, seed, funcs):
+def run_history(ctx, T, cls, tier, seed, funcs, f1s=None):
     buf = np.array(HIST_X)
     n = 0
-    for opts, kinds, X, Y, name, f1, f2, route, other, censor in history_cases(cls, tier, seed, funcs):
+    for opts, kinds, X, Y, name, f1, f2, route, other, censor in history_cases(cls, tier, seed, funcs, f1s):
         got, want = history_sequence(T, cls, opts, kinds, X, Y, name, f1, f2, route, other, censor, buf)
         n += 1
         ctx.states += 2
